@@ -74,6 +74,9 @@ def gen_workload(rng, mode):
         for _ in range(rng.randint(1, 4)):
             pat, ns = rng.choice(gen.XML_STATEFUL_POOL)
             keys.append({'pattern': pat, 'ns': ns, 'custom': None, 'flags': 0, 'uses_scope': False, 'special': 0})
+            for si, sp in enumerate(specs):
+                if sp['parser'] == 'xml' or sp['markup'].startswith('<?xml'):
+                    anchors.append((si, len(keys) - 1))
     kinds = {('xml' if (sp['parser'] == 'xml') else 'html') for sp in specs}
     if len(kinds) == 2:
         # one compiled selector (shared through the pattern cache) meets an HTML tree and an XML tree
@@ -180,7 +183,12 @@ def _gen_call(rng, keys, cur, specs):
 # ---------------------------------------------------------------------------
 
 class FaultTracer:
-    """Raises an exception at the k-th step (line / function entry) inside soupsieve frames."""
+    """Raises an exception at the k-th fault point inside soupsieve frames.
+
+    Fault points are function entries ('call': the callee fails at once) and function exits ('return': the call raises
+    in its caller, inside whatever try/with protects it).  'line' events are deliberately not fault points: they lie
+    between statements (e.g. after a with-body, before __exit__), where neither a failing operation nor - on CPython
+    3.12 - an asynchronous exception can strike."""
 
     def __init__(self, prefix, at, exc):
         self.prefix = prefix
@@ -188,6 +196,7 @@ class FaultTracer:
         self.exc = exc
         self.n = 0
         self.fired = None
+        self.unwinding = False
 
     def glob(self, frame, event, arg):
         if event == 'call' and frame.f_code.co_filename.startswith(self.prefix):
@@ -196,8 +205,14 @@ class FaultTracer:
         return None
 
     def local(self, frame, event, arg):
-        if event == 'line':
-            self._step(frame)
+        if event == 'return':
+            if not self.unwinding:
+                self._step(frame)
+            self.unwinding = False
+        elif event == 'exception':
+            self.unwinding = True
+        elif event == 'line':
+            self.unwinding = False
         return self.local
 
     def _step(self, frame):
@@ -577,6 +592,7 @@ def execute(sv, w, o2_seed=0, o2_rate=0.35, pristine_checks=2):
     digest = fp.h((events, violation), 12)
     shape = fp.h([(e[1],) for e in events])
     return {
+        'call_steps': max(ref_len.values()) if ref_len else None,
         'violation': violation,
         'digest': digest,
         'probes': probes,
@@ -683,7 +699,93 @@ def _j(x):
     return x
 
 
-def run_seeded(sv, run_seed, mode):
+# ---------------------------------------------------------------------------
+# systematic single-fault sweep: an exception at every step of one query, then the same questions again
+# ---------------------------------------------------------------------------
+
+FAULTSWEEP_BATCH = 40
+_SWEEP_DOCS = [
+    {'markup': ('<html lang="en"><head><meta http-equiv="content-language" content="de"></head><body><form><input '
+                'type="radio" name="r" checked><input type="radio" name="R"><input type="submit"><input type="number" '
+                'min="0" max="5" value="7"></form><div dir="rtl" class="a  b"><p class="a">hello</p><p lang="de">x</p>'
+                '<a href="#x">l</a></div><ul><li>1</li><li class="c">2</li></ul></body></html>'),
+     'parser': 'html.parser', 'mut': []},
+    {'markup': '<div class="a b"><p>one</p><p lang="en">two</p><form><input type="radio" name="q"></form><span>t</span></div>',
+     'parser': 'html.parser', 'mut': [], 'detach': 0},
+    {'markup': ('<?xml version="1.0"?><root xmlns:x="urn:x-test" class="r  s"><x:item k="1" class="p  q">a</x:item><item '
+                'xml:lang="en">b</item><Item>c</Item></root>'), 'parser': 'xml', 'mut': []},
+]
+_SWEEP_SELECTORS = [
+    (':lang(en)', None), (':default, :indeterminate', None), (':dir(rtl)', None), ('p:nth-child(2)', None),
+    (':first-child *', None), ('.a', None), (':has(> p:lang(de))', None), (':in-range, :out-of-range', None),
+    (':nth-child(1 of :lang(en), p) *', None), ('x|item, :checked', {'x': gen.NS_X}), (':root > *:not(.c)', None),
+    (':-soup-contains(hello)', None),
+]
+
+
+def run_faultsweep(sv, index):
+    from sim import runner
+    npairs = len(_SWEEP_DOCS) * len(_SWEEP_SELECTORS)
+    pi, batch = index % npairs, index // npairs
+    spec = _SWEEP_DOCS[pi % len(_SWEEP_DOCS)]
+    pat, ns = _SWEEP_SELECTORS[pi // len(_SWEEP_DOCS)]
+    entry = ('select', 'match', 'closest', 'filter')[(pi // 7) % 4]
+    key = {'pattern': pat, 'ns': ns, 'custom': None, 'flags': 0, 'uses_scope': False, 'special': 0}
+    tgt = -1 if entry in ('select', 'filter') else (0 if entry == 'match' else 3)
+
+    def workload(fault):
+        first = {'op': 'call', 'entry': entry, 'key': 0, 'doc': 0, 'target': tgt, 'form': 'module', 'limit': 0}
+        if fault is not None:
+            first['fault'] = fault
+        again = {'op': 'call', 'entry': entry, 'key': 0, 'doc': 0, 'target': tgt, 'form': 'module', 'limit': 0}
+        sel = {'op': 'call', 'entry': 'select', 'key': 0, 'doc': 0, 'target': -1, 'form': 'compiled', 'limit': 0, 'o2': True}
+        return {'mode': 'faultsweep', 'specs': [spec], 'slots': [0], 'keys': [key], 'history': [first, again, sel]}
+
+    r0 = runner.isolated(execute, sv, workload([10 ** 9, 'MemoryError']), 0, 0.0, 0, hang_s=60)
+    if r0.get('discarded'):
+        return r0
+    length = max(1, r0.get('call_steps') or 1)
+    stride = max(1, (length + FAULTSWEEP_BATCH - 1) // FAULTSWEEP_BATCH)
+    if batch >= stride:
+        return {'discarded': 'faultsweep-batch-beyond-end-of-operation'}
+    res = None
+    digests = []
+    fired = 0
+    for st in range(1 + batch, length + 1, stride):
+        w = workload([st, 'MemoryError' if st % 3 else 'RuntimeError'])
+        try:
+            r = runner.isolated(execute, sv, w, 0, 0.0, 0, hang_s=60)
+        except runner.IsolatedTimeout:
+            continue
+        digests.append(r['digest'])
+        fired += len(r.get('faults_fired') or [])
+        if res is None or (r['violation'] and not res['violation']):
+            res = r
+            res['workload'] = w
+        if r['violation']:
+            break
+    if res is None:
+        return {'discarded': 'faultsweep-batch-beyond-end-of-operation'}
+    res = dict(res)
+    if not res['violation']:
+        res['digest'] = fp.h(digests, 12)
+    res['probes'] = dict(res['probes'])
+    res['probes']['faultsweep_points'] = len(digests)
+    res['probes']['faultsweep_faults_fired'] = fired
+    res['nontrivial'] = True
+    res['o2_seed'] = 0
+    res['o2_rate'] = 0.0
+    res['pristine_checks'] = 0
+    res['faultsweep'] = {'pair': pi, 'selector': pat, 'parser': spec['parser'], 'detached': spec.get('detach') is not None,
+                         'entry': entry, 'batch': batch, 'call_steps': length, 'stride': stride}
+    return res
+
+
+def run_seeded(sv, run_seed, mode, index=None):
+    if mode == 'faultsweep':
+        res = run_faultsweep(sv, index or 0)
+        res['run_seed'] = run_seed
+        return res
     rng = random.Random(run_seed)
     w = gen_workload(rng, mode)
     o2 = rng.getrandbits(32)
@@ -695,7 +797,7 @@ def run_seeded(sv, run_seed, mode):
 
 
 def replay(sv, rec):
-    res = execute(sv, rec['workload'], rec.get('o2_seed', 0), rec.get('o2_rate', 0.35))
+    res = execute(sv, rec['workload'], rec.get('o2_seed', 0), rec.get('o2_rate', 0.35), rec.get('pristine_checks', 2))
     res['workload'] = rec['workload']
     res['o2_seed'] = rec.get('o2_seed', 0)
     return res
@@ -721,6 +823,11 @@ def plan(tier):
     add('nochurn', 500, 1000, 20)
     add('faults', 500, 2400, 20)
     add('faults', 2, 800, 20)
+    # systematic single-fault sweep: an exception at every step of one query (36 selector x document pairs incl. a
+    # detached fragment and an XML tree), then the same question again and a whole-document select checked element by
+    # element; the thorough tier covers every step, the quick tier every ~8th
+    cfgs.append({'name': 'faultsweep-k500', 'mode': 'faultsweep', 'bound': 500, 'chunk': 9,
+                 'nruns': 36 * 5 if tier != 'thorough' else 36 * 105})
     return {'budget_s': budget, 'configs': cfgs, 'minimise_budget': 400}
 
 
@@ -732,6 +839,9 @@ def make_record(res, cfg=None, index=None):
         'index': index,
         'run_seed': res.get('run_seed'),
         'o2_seed': res.get('o2_seed', 0),
+        'o2_rate': res.get('o2_rate', 0.35),
+        'pristine_checks': res.get('pristine_checks', 2),
+        'faultsweep': res.get('faultsweep'),
         'bound': (cfg or {}).get('bound') if cfg else res.get('bound'),
         'workload': w,
         'segments': [],
@@ -772,7 +882,11 @@ def _one_run(sv, verif_seed, cfg, i, nsamples):
     from sim import runner
     agg = runner.Agg()
     seed = runner.derive_seed(verif_seed, PROP, cfg['name'], i)
-    res = run_seeded(sv, seed, cfg['mode'])
+    res = run_seeded(sv, seed, cfg['mode'], index=i)
+    if res.get('discarded') == 'faultsweep-batch-beyond-end-of-operation':
+        agg.count('probe:faultsweep_batches_beyond_end')
+        agg.digests[f"{cfg['name']}:{i}"] = 'beyond-end'
+        return agg
     if res.get('discarded'):
         agg.count('discarded:' + res['discarded'])
         agg.digests[f"{cfg['name']}:{i}"] = 'discarded'
